@@ -688,6 +688,13 @@ type rotation struct {
 	segRotated bool
 	dirFiles   []string
 	probes     []probe
+	otherQuery []otherObs // the same playlists as requested by another client with another pass-through query
+}
+
+type otherObs struct {
+	si    int
+	query string
+	pm    *parsedMedia
 }
 
 // winObs: a stream's media playlist and the init segment it names, fetched from inside the rotation's
@@ -725,9 +732,7 @@ func mkTracks(h *history) []*gohlslib.Track {
 	var out []*gohlslib.Track
 	for _, t := range h.Tracks {
 		tr := &gohlslib.Track{ClockRate: int(t.Rate), IsDefault: t.Default}
-		if t.Name != 0 {
-			tr.Name = "name" + strconv.Itoa(t.Name)
-		}
+		tr.Name = trackNameOf(t.Name)
 		if t.Lang != 0 {
 			tr.Language = "l" + strconv.Itoa(t.Lang)
 		}
@@ -772,6 +777,12 @@ func nameCode(s string, id string) int64 {
 	if strings.HasPrefix(s, "name") {
 		v, _ := strconv.ParseInt(s[4:], 10, 64)
 		return v
+	}
+	if strings.HasPrefix(s, "audio") {
+		// a user-given name that is another stream's fallback name (nameAudioBase in gen.go)
+		if v, err := strconv.ParseInt(s[5:], 10, 64); err == nil {
+			return nameAudioBase + v
+		}
 	}
 	return -1
 }
@@ -1017,6 +1028,15 @@ func runImpl(h *history, dir string) (res *runResult) {
 		}
 		res.lines = append(res.lines, []int64{1, int64(k), rc})
 
+		if h.Disk && k == len(h.Ops)/2 && len(h.Faults) == 0 && len(h.WriteFaults) == 0 {
+			// a second muxer session comes and goes on the same Directory (file names start with a per-muxer random
+			// prefix so that sessions can share one): nothing this muxer lists may be affected (round 10: C05-m14,
+			// NewFactoryDisk removing the "leftover" segment files it finds in the directory)
+			nb := &gohlslib.Muxer{Tracks: mkTracks(h), Variant: variantOf(h), SegmentCount: h.SegCount, Directory: dir}
+			if nb.Start() == nil {
+				nb.Close()
+			}
+		}
 		snap = gohlslib.VerifSnapshot(m)
 		if res.firstOpen < 0 && len(snap.Streams) > 0 && snap.Streams[0].HasNextSegment {
 			res.firstOpen = k
@@ -1072,6 +1092,20 @@ func runImpl(h *history, dir string) (res *runResult) {
 				rot.plRaw = append(rot.plRaw, "")
 				res.lines = append(res.lines, line)
 				continue
+			}
+			// another client of the same playlist, with its own pass-through query (or none), asks FIRST: what the
+			// history's own client is told afterwards must not depend on it (round 10: C04-m14, playlist entries of
+			// older segments cached with the query of whichever request built them)
+			{
+				oq := "?tok=other" + strconv.Itoa(k%3)
+				if k%2 == 1 {
+					oq = ""
+				}
+				if ro := fetch(m, s.ID+"_stream.m3u8"+oq); ro.status == 200 {
+					if po := parseMedia(string(ro.body)); po.err == "" {
+						rot.otherQuery = append(rot.otherQuery, otherObs{si: si, query: strings.TrimPrefix(oq, "?"), pm: po})
+					}
+				}
 			}
 			r := fetch(m, s.ID+"_stream.m3u8"+q)
 			if r.status == 200 {
